@@ -10,6 +10,8 @@ func init() {
 			{{2, 2, 3}, {3, 2}}, {{2, 3}, {2, 3, 2}}, {{2, 2, 3}, {2, 3, 2}}, {{1, 2, 3}, {2, 3, 1}}, {{2, 1, 3}, {1, 3, 2}}, {{2, 2, 3}, {3, 3, 2}},
 			{{3}, {2, 3, 2}}, {{2, 2, 3}, {3}}, {{2, 1, 2, 3}, {2, 3, 1}}, {{1, 2, 1, 2}, {2, 1, 2, 2}}, {{2, 1, 1}, {1, 1, 2}}, {{1, 1}, {1, 1}}, {{1}, {1}},
 			{{2, 1, 2, 2}, {3, 2, 1}},
+			// more than 32 batch matrices, their number no multiple of 4 (33; 5x7)
+			{{33, 1, 2}, {2, 2}}, {{5, 7, 1, 2}, {2, 2}},
 			// three batch axes with the outer and the middle one both > 1 (the batch odometer carries twice)
 			{{2, 3, 2, 1, 2}, {2, 3, 2, 2, 2}}, {{2, 3, 2, 2, 2}, {3, 1, 2, 1}}, {{2, 1, 2, 1, 2, 2}, {2, 1, 2, 2, 1}},
 			{{2, 1, 1}, {2, 1, 1}}, {{1, 1, 1}, {1, 1, 3}}, {{2, 2, 1}, {2, 1, 1}}, {{2, 1, 2}, {2, 2, 1}}, {{1}, {1, 2}}, {{3, 1, 1}, {1}},
